@@ -158,6 +158,7 @@ pub fn run_case(case: &Case) -> Outcome {
         "structure" => k_structure(case),
         "scratchlen" => k_scratchlen(case),
         "histscratch" => k_histscratch(case),
+        "histops" => k_histops(case),
         "altnum" => k_altnum(case),
         other => Outcome::skip(format!("unknown case kind {}", other)),
     }
